@@ -131,6 +131,22 @@ func (db *MultiBucketBackend) ListBucket(bucket string, prefix *gofakes3.Prefix,
 
 func (db *MultiBucketBackend) getBucketWithFilePrefixLocked(bucket string, prefixPath, prefixPart string) (*gofakes3.ObjectList, error) {
 	bucketPath := path.Join(bucket, prefixPath)
+	response := gofakes3.NewObjectList()
+
+	if prefixPath != "" {
+		// A prefix below which there is no directory matches no key; that is an
+		// empty listing, not a missing bucket. The same goes for prefixes with
+		// empty, "." or ".." segments, which no key contains but which
+		// path.Join would resolve to some other directory.
+		if exists, err := afero.DirExists(db.bucketFs, filepath.FromSlash(bucket)); err != nil {
+			return nil, err
+		} else if !exists {
+			return nil, gofakes3.BucketNotFound(bucket)
+		}
+		if isDir, _ := afero.IsDir(db.bucketFs, filepath.FromSlash(bucketPath)); !isDir || !cleanKeyPath(prefixPath) {
+			return response, nil
+		}
+	}
 
 	dirEntries, err := afero.ReadDir(db.bucketFs, filepath.FromSlash(bucketPath))
 	if os.IsNotExist(err) {
@@ -138,8 +154,6 @@ func (db *MultiBucketBackend) getBucketWithFilePrefixLocked(bucket string, prefi
 	} else if err != nil {
 		return nil, err
 	}
-
-	response := gofakes3.NewObjectList()
 
 	for _, entry := range dirEntries {
 		object := entry.Name()
